@@ -14,12 +14,13 @@ import (
 func init() { registry["C04"] = checkC04 }
 
 func checkC04(c *Ctx, r *Report) {
-	r.Explain = "Decides structural necessary conditions of well-formed revision trees with a deterministic winner: (R1) compareRevIDs is, for all generations and digests, the lexicographic order on (generation, digest) — evaluated abstractly over every weak ordering of the two generations and two digests; (R2) the winner fold replaces the incumbent exactly when (not deleted, revID) is lexicographically greater, for all combinations, and reports branched/conflict as leaf counts > 1 — together with R1 (a total order) this makes the winner independent of leaf iteration order; (R3) a revision enters the tree only after the duplicate check, the parent-exists check and the strictly-higher-generation check; (R4) the document's current revision and deleted/conflict/branched flags are assigned from the winner computation only; (R5) the stored form is symmetric: every field of the wire struct the encoder fills is consumed by the decoder, every RevInfo field the encoder reads the decoder restores, and the revs/parents length validation precedes tree construction; (R6) pruning snips dangling parent links after every deletion pass. Not decided: forest shape after arbitrary histories, leaf-set equality across insertion orders, pruning depth arithmetic, digest determinism."
+	r.Explain = "Decides structural necessary conditions of well-formed revision trees with a deterministic winner: (R1) compareRevIDs is, for all generations and digests, the lexicographic order on (generation, digest) — evaluated abstractly over every weak ordering of the two generations and two digests; (R2) the winner fold replaces the incumbent exactly when (not deleted, revID) is lexicographically greater, for all combinations, and reports branched/conflict as leaf counts > 1 — together with R1 (a total order) this makes the winner independent of leaf iteration order; (R3) a revision enters the tree only after the duplicate check, the parent-exists check and the strictly-higher-generation check; (R4) the document's current revision and deleted/conflict/branched flags are assigned from the winner computation only; (R5) the stored form is symmetric: every field of the wire struct the encoder fills is consumed by the decoder, every RevInfo field the encoder reads the decoder restores, and the revs/parents length validation precedes tree construction; (R6) pruning snips dangling parent links after every deletion pass; (R7) a failure to store a displaced revision body aborts the update, so the tree never points at a body that was not written. Not decided: forest shape after arbitrary histories, leaf-set equality across insertion orders, pruning depth arithmetic, digest determinism."
 	c04R1R2(c, r)
 	c04R3(c, r)
 	c04R4(c, r)
 	c04R5(c, r)
 	c04R6(c, r)
+	c04R7(c, r)
 }
 
 func c04R1R2(c *Ctx, r *Report) {
@@ -625,5 +626,37 @@ func c04R6(c *Ctx, r *Report) {
 	}
 	if len(dels) < 2 {
 		r.Fail("C04-R6", "fn=(db.RevTree).pruneRevisions deletion-sites", c.Pos(fn.Pos()), "expected depth pruning and tombstoned-branch deletion sites")
+	}
+}
+
+// C04-R7: a revision whose body is moved out of the document (a displaced, non-winning leaf) must not be committed pointing at
+// a body that was never stored: every failure of storing such a body aborts the update. Otherwise a later promotion of that leaf
+// finds no body and the document carries another branch's content under the promoted revision id.
+func c04R7(c *Ctx, r *Report) {
+	r.Rule("C04-R7", "E5 failedge (strict)", "failures of persisting displaced revision bodies propagate out of the write path (persistRevisionBody in persistModifiedRevisionBodies, persistModifiedRevisionBodies in documentUpdateFunc)", 2)
+	fe := newFailEdge(c)
+	for _, s := range []struct{ fn, callee string }{
+		{"(*db.DatabaseCollectionWithUser).documentUpdateFunc", "(*db.Document).persistModifiedRevisionBodies"},
+		{"(*db.Document).persistModifiedRevisionBodies", "(*db.Document).persistRevisionBody"},
+	} {
+		fn := c.Func(s.fn)
+		if fn == nil {
+			r.Fail("C04-R7", "anchor "+s.fn, "-", "function not found")
+			continue
+		}
+		calls := c.Calls(fn, false, nameIs(s.callee))
+		if len(calls) == 0 {
+			r.Fail("C04-R7", "fn="+s.fn+" call="+CalleeIdentOf(s.callee), c.Pos(fn.Pos()), "the call that stores displaced revision bodies was not found")
+		}
+		for i, call := range calls {
+			cv, ok := call.(*ssa.Call)
+			if !ok {
+				r.Fail("C04-R7", fmt.Sprintf("fn=%s call=%s #%d", s.fn, CalleeIdentOf(s.callee), i+1), c.Pos(call.Pos()), "invoked via go/defer: failure unobservable")
+				continue
+			}
+			v := fe.classifyStrict(fn, cv)
+			r.Check("C04-R7", fmt.Sprintf("fn=%s call=%s #%d failure-aborts-update", s.fn, CalleeIdentOf(s.callee), i+1), c.Pos(call.Pos()), v.Verdict == "propagating",
+				"a body that could not be stored aborts the write", "a failed store of a displaced revision body does not abort the update: the revision tree is committed pointing at a body key that was never written; when that leaf is later promoted the document carries another branch's content under its revision id ("+v.Detail+")")
+		}
 	}
 }
